@@ -302,6 +302,98 @@ static int cmd_raw(char** tok, int nt)
     return 1;
 }
 
+
+/* ------------------------------------------------------------------ control-format container with several mixed ACF-CAN messages
+ * (growth: AcfContainer.tla)
+ * CT <ctrl: Tscf|Ntscf> <place> <off> <arenahex> <msgs: k:idhex8:fd:payhex;... or ->      k: f (full) | b (brief)
+ *   assembles the container with the library the way the tutorial / talkers do (offset advanced by the length READ BACK),
+ *   writes the control header's data length, then walks the result by the generic ACF prefix.
+ * answer: R status used 0 0 arena canary walk=<k:id:fd:eff:payhex;...>                                                   */
+#include "avtp/acf/Tscf.h"
+#include "avtp/acf/Ntscf.h"
+#include "avtp/acf/AcfCommon.h"
+typedef struct { int tscf; uint8_t* arena; size_t alen; char* msgs; uint64_t used; char* walk; size_t wcap; size_t w; } CtCtx;
+static int ct_hex(int ch) { return ch >= '0' && ch <= '9' ? ch - '0' : ch >= 'a' && ch <= 'f' ? ch - 'a' + 10 : -1; }
+static void ct_put(CtCtx* c, const char* t) { while (*t && c->w + 1 < c->wcap) c->walk[c->w++] = *t++; c->walk[c->w] = 0; }
+static void ct_puthex(CtCtx* c, uint32_t v, int digits) { char b[9]; for (int i = 0; i < digits; i++) b[i] = "0123456789abcdef"[(v >> (4 * (digits - 1 - i))) & 15]; b[digits] = 0; ct_put(c, b); }
+static void ct_fn(void* p)
+{
+    CtCtx* c = p;
+    static uint8_t pay[2048];
+    size_t hdr = c->tscf ? AVTP_TSCF_HEADER_LEN : AVTP_NTSCF_HEADER_LEN, pos = hdr;
+    if (c->tscf) Avtp_Tscf_Init((Avtp_Tscf_t*)c->arena); else Avtp_Ntscf_Init((Avtp_Ntscf_t*)c->arena);
+    char* s = c->msgs;
+    while (s && *s && *s != '-') {
+        char k = s[0]; char* q = s + 2;
+        uint32_t id = 0; while (ct_hex(*q) >= 0) id = (id << 4) | (uint32_t)ct_hex(*q++);
+        q++;
+        int fd = *q++ == '1'; q++;
+        size_t n = 0;
+        while (ct_hex(q[0]) >= 0 && ct_hex(q[1]) >= 0 && n < sizeof pay) { pay[n++] = (uint8_t)(ct_hex(q[0]) * 16 + ct_hex(q[1])); q += 2; }
+        if (*q == '-') q++;
+        Avtp_CanVariant_t var = fd ? AVTP_CAN_FD : AVTP_CAN_CLASSIC;
+        if (k == 'f') {
+            Avtp_Can_t* m = (Avtp_Can_t*)(c->arena + pos);
+            Avtp_Can_Init(m);
+            Avtp_Can_CreateAcfMessage(m, id, pay, (uint16_t)n, var);
+            pos += (size_t)Avtp_Can_GetAcfMsgLength(m) * 4;
+        } else {
+            Avtp_CanBrief_t* m = (Avtp_CanBrief_t*)(c->arena + pos);
+            Avtp_CanBrief_Init(m);
+            Avtp_CanBrief_SetPayload(m, id, pay, (uint16_t)n, var);
+            pos += (size_t)Avtp_CanBrief_GetAcfMsgLength(m) * 4;
+        }
+        s = (*q == ';') ? q + 1 : NULL;
+    }
+    if (c->tscf) Avtp_Tscf_SetStreamDataLength((Avtp_Tscf_t*)c->arena, (uint16_t)(pos - hdr));
+    else Avtp_Ntscf_SetNtscfDataLength((Avtp_Ntscf_t*)c->arena, (uint16_t)(pos - hdr));
+    c->used = pos;
+    /* the receiving side */
+    size_t total = c->tscf ? Avtp_Tscf_GetStreamDataLength((Avtp_Tscf_t*)c->arena) : Avtp_Ntscf_GetNtscfDataLength((Avtp_Ntscf_t*)c->arena);
+    size_t h = hdr, limit = hdr + total;
+    if (limit > c->alen) limit = c->alen;
+    c->w = 0; c->walk[0] = 0;
+    while (h + 4 <= limit && c->w + 32 < c->wcap) {
+        Avtp_AcfCommon_t* a = (Avtp_AcfCommon_t*)(c->arena + h);
+        unsigned t = (unsigned)Avtp_AcfCommon_GetAcfMsgType(a);
+        size_t ql = Avtp_AcfCommon_GetAcfMsgLength(a);
+        if (ql == 0 || (t != AVTP_ACF_TYPE_CAN && t != AVTP_ACF_TYPE_CAN_BRIEF) || h + ql * 4 > limit) { ct_put(c, "bad;"); break; }
+        uint32_t id; unsigned fd, eff; long plen; const uint8_t* pl;
+        if (t == AVTP_ACF_TYPE_CAN) {
+            Avtp_Can_t* m = (Avtp_Can_t*)a;
+            id = Avtp_Can_GetCanIdentifier(m); fd = Avtp_Can_GetFdf(m); eff = Avtp_Can_GetEff(m);
+            plen = (long)ql * 4 - AVTP_CAN_HEADER_LEN - Avtp_Can_GetPad(m); pl = c->arena + h + AVTP_CAN_HEADER_LEN;
+        } else {
+            Avtp_CanBrief_t* m = (Avtp_CanBrief_t*)a;
+            id = Avtp_CanBrief_GetCanIdentifier(m); fd = Avtp_CanBrief_GetFdf(m); eff = Avtp_CanBrief_GetEff(m);
+            plen = (long)ql * 4 - AVTP_CAN_BRIEF_HEADER_LEN - Avtp_CanBrief_GetPad(m); pl = c->arena + h + AVTP_CAN_BRIEF_HEADER_LEN;
+        }
+        if (plen < 0) { ct_put(c, "bad;"); break; }
+        ct_put(c, t == AVTP_ACF_TYPE_CAN ? "f:" : "b:"); ct_puthex(c, id, 8);
+        ct_put(c, fd ? ":1" : ":0"); ct_put(c, eff ? ":1:" : ":0:");
+        for (long i = 0; i < plen; i++) ct_puthex(c, pl[i], 2);
+        if (plen == 0) ct_put(c, "-");
+        ct_put(c, ";");
+        h += ql * 4;
+    }
+}
+static int cmd_ct(char** tok, int nt)
+{
+    static uint8_t arena_b[EXT_MAXARENA]; static char walk[8192];
+    if (nt < 6) return 0;
+    CtCtx c; memset(&c, 0, sizeof c);
+    c.tscf = !strcmp(tok[1], "Tscf");
+    char place = tok[2][0]; long off = atol(tok[3]);
+    c.alen = unhex(tok[4], arena_b, sizeof arena_b);
+    c.arena = ext_place(place, off, arena_b, c.alen);
+    c.msgs = tok[5]; c.walk = walk; c.wcap = sizeof walk; walk[0] = 0;
+    char status[64];
+    ext_call(ct_fn, &c, status, sizeof status, c.arena);
+    ext_result(status, c.used, 0, 0, c.arena, c.alen);
+    printf(" walk=%s\n", walk[0] ? walk : "-");
+    return 1;
+}
+
 int exec_ext(char** tok, int nt)
 {
     if (!strcmp(tok[0], "Y")) return cmd_raw(tok, nt);
@@ -309,6 +401,7 @@ int exec_ext(char** tok, int nt)
     if (!strcmp(tok[0], "VS")) return cmd_vss(tok, nt);
     if (!strcmp(tok[0], "SA")) return cmd_sa(tok, nt);
     if (!strcmp(tok[0], "CB")) return cmd_can(tok, nt);
+    if (!strcmp(tok[0], "CT")) return cmd_ct(tok, nt);
     return 0;
 }
 void describe_ext(void) { }
